@@ -61,6 +61,11 @@ func (q *Queue) Dequeue() []byte {
 	q.lock.Lock()
 	defer q.lock.Unlock()
 
+	if len(q.queue) == 0 {
+		// another consumer emptied the queue between the depth check above and the lock
+		return nil
+	}
+
 	b := q.queue[0]
 
 	q.queue = q.queue[1:]
